@@ -788,3 +788,58 @@ def rule_readonly_shortcut_is_read(ctx):
                              "is answered with success" % render(nn[1])[:60])
     ctx.floor("ROSHORTCUT", 1, n, "(success shortcuts for read-only files in the SD data path)")
     return n
+
+
+class _VersionFlag(PathAnalysis):
+    """user: 0 = version numbers not touched, 1 = version numbers stored and `modified` not decided since, 2 = decided"""
+
+    def __init__(self, prog):
+        super().__init__(prog)
+        self.exits = []
+
+    def init_user(self, func):
+        return 0
+
+    def on_stmt(self, func, bid, idx, stmt, env, user):
+        for n in walk(stmt["e"]):
+            if n[0] == "asg":
+                mf = mem_field(n[2])
+                if mf and mf[0] == "version_t":
+                    if mf[1] == "modified":
+                        user = 2
+                    elif mf[1] in ("majorv", "minorv", "release"):
+                        user = 1
+        return user
+
+    def on_exit(self, func, bid, retval, env, user):
+        self.exits.append(user)
+
+
+def rule_version_flag_decided(ctx):
+    """VERFLAG (C17): the file record carries the library version stored in the file together with a `modified` flag; Hclose
+    rewrites the DFTAG_VERSION element - in place, inside the old file, before the DD flush - whenever the flag is set.  The
+    flag therefore has to be decided by whoever changes the version numbers: a routine that stores majorv/minorv/release
+    (decoded from the file, or taken from the running library) leaves by every exit with `version.modified` assigned after
+    that store.  A loader that leaves the flag as an earlier comparison happened to set it makes every session on an older
+    file overwrite the old version element before anything is flushed."""
+    prog = ctx.prog
+    n = 0
+    for f in prog.lib_funcs():
+        touches = False
+        for _b, _i, _s, x in f.nodes(True):
+            if x[0] == "asg":
+                mf = mem_field(x[2])
+                if mf and mf[0] == "version_t" and mf[1] in ("majorv", "minorv", "release"):
+                    touches = True
+        if not touches:
+            continue
+        n += 1
+        key = "VERFLAG:%s" % f.name
+        a = _VersionFlag(prog)
+        a.run(f)
+        if a.exits and all(u != 1 for u in a.exits):
+            ctx.holds("VERFLAG", key, f.where(), "every exit that follows a store to the version numbers has version.modified assigned after it", nontrivial=True)
+        else:
+            ctx.violated("VERFLAG", key, f.where(), "an exit is reached after the version numbers were stored without version.modified being assigned: the flag keeps whatever an earlier comparison left, and Hclose rewrites the old DFTAG_VERSION element in place")
+    ctx.floor("VERFLAG", 2, n, "(routines that store the file record's version numbers)")
+    return n
